@@ -28,7 +28,8 @@ def _fit_piecewise_estimator(
         # Issues a classifiers requires to have at least one example
         # of each class.
         if random_state is None:
-            random_state = numpy.random.RandomState()
+            # global numpy generator: reproducible under numpy.random.seed
+            random_state = numpy.random.mtrand._rand
         addition = numpy.arange(len(ind))
         random_state.shuffle(addition)
         found = set(yi)
